@@ -41,7 +41,7 @@ lname = C.lname
 indent = C.indent
 
 LEAN_TY = {"Nat": "Nat", "Bool": "Bool", "Elem": "Option Rat", "F": "Option Rat", "ListNat": "List Nat",
-           "OutL": "List (Option (Option Rat))", "Rat": "Rat", "Unit": "Unit"}
+           "OutL": "List (Option (Option Rat))", "Rat": "Rat", "Unit": "Unit", "Log": "List (Nat × Nat)"}
 
 
 _q_ty_lean = Q.ty_lean
@@ -79,7 +79,26 @@ def comparator(cl):
     return None
 
 
+TRACE = [False]
+
+
+def has_access(node):
+    if isinstance(node, tuple):
+        if len(node) == 4 and node[0] == "mcall" and node[2] in ("uget", "uset"):
+            return True
+        return any(has_access(x) for x in node)
+    if isinstance(node, list):
+        return any(has_access(x) for x in node)
+    return False
+
+
 def assigned(node, acc):
+    if TRACE[0] and "log__" not in acc and has_access(node):
+        acc.append("log__")
+    return assigned0(node, acc)
+
+
+def assigned0(node, acc):
     """variables assigned (plain, compound, tuple), sorted in place or written through `uset` inside
     `node`, in first-occurrence order; closures are not entered"""
     if isinstance(node, tuple):
@@ -94,21 +113,34 @@ def assigned(node, acc):
             if node[1][1] not in acc:
                 acc.append(node[1][1])
         for x in node:
-            assigned(x, acc)
+            assigned0(x, acc)
     elif isinstance(node, list):
         for x in node:
-            assigned(x, acc)
+            assigned0(x, acc)
 
 
 class RankCps(Q.Cps):
     PANIC = "none"
 
-    def __init__(self):
+    def __init__(self, trace=False):
         super().__init__()
         self.unguarded = 0
         self.loops = 0
         self.sorts = 0
         self.in_loop = 0
+        self.trace = trace          # instrumented variant: log every unchecked access as (index, length)
+        self.accesses = 0
+        if trace:
+            self.PANIC = "log__"
+
+    def logw(self, i, n):
+        """wrapper that records one unchecked access before the statement it occurs in"""
+        self.accesses += 1
+
+        def w(body, i=i, n=n):
+            return f"let log__ := log__ ++ [({i}, {n})]\n{body}"
+        w.is_let = True
+        return w
 
     # ---- expressions
     def ex(self, e, env):
@@ -147,6 +179,8 @@ class RankCps(Q.Cps):
             b, tb, wb = self.ex(e[3], env)
             if ta == tb == "Nat" and self.in_loop:
                 self.unguarded += 1
+                if self.trace:
+                    return f"(wsub {a} {b})", "Nat", wa + wb      # the release-build (wrapping) reading
                 return f"({a} - {b})", "Nat", wa + wb
         if k == "bin" and e[1] == "==":
             a, ta, wa = self.ex(e[2], env)
@@ -163,6 +197,8 @@ class RankCps(Q.Cps):
                 i, ti, w = self.ex(args[0], env)
                 if ti != "Nat":
                     raise Unsupported("index")
+                if self.trace:
+                    w = w + [self.logw(i, "xs.length")]
                 return f"(xs.getD {i} none)", "Elem", w
             if (recv[0] == "paren" and recv[1][0] == "bin" and recv[1][1] == ".." and name == "collect_trusted_to_vec"
                     and recv[1][2] == ("num", "0")):
@@ -179,6 +215,8 @@ class RankCps(Q.Cps):
                 i, ti, wi = self.ex(args[0], env)
                 if ti != "Nat":
                     raise Unsupported("index")
+                if self.trace:
+                    wi = wi + [self.logw(i, f"{r}.length")]
                 return f"({r}.getD {i} 0)", "Nat", w + wi
             if tr == "Elem" and name == "is_none" and not args:
                 return f"{r}.isNone", "Bool", w
@@ -194,8 +232,20 @@ class RankCps(Q.Cps):
             raise Unsupported("guarded expression inside a loop body")
         return t, ty
 
+    @staticmethod
+    def only_lets(ws):
+        return all(getattr(w, "is_let", False) for w in ws)
+
     # ---- results
     def result(self, e, env):
+        if self.trace:
+            ws = []
+            if e[0] == "call":
+                for a in e[2]:
+                    ws += self.ex(a, env)[2]
+            else:
+                ws = self.ex(e, env)[2]
+            return self.wrap(ws, "log__")
         if e[0] == "call" and e[1] == "O::empty" and not e[2]:
             return "some []"
         if e[0] == "call" and e[1] == "O::full" and len(e[2]) == 2:
@@ -247,7 +297,10 @@ class RankCps(Q.Cps):
             v, tv, wv = self.ex(st[1][3][1], env)
             if ti != "Nat" or tv != "F":
                 raise Unsupported("uset arguments")
-            return [f"let {lname(o)} := {lname(o)}.set {i} (some {v})"], env, wi + wv
+            ws = wi + wv
+            if self.trace:
+                ws = ws + [self.logw(i, f"{lname(o)}.length")]
+            return [f"let {lname(o)} := {lname(o)}.set {i} (some {v})"], env, ws
         if (st[0] == "expr" and st[1][0] == "mcall" and st[1][2] == "unwrap" and st[1][1][0] == "mcall"
                 and st[1][1][2] == "sort_unstable_by" and st[1][1][1][0] == "path" and env.get(st[1][1][1][1]) == "ListNat"
                 and len(st[1][1][3]) == 1 and st[1][1][3][0][0] == "closure"):
@@ -333,13 +386,13 @@ class RankCps(Q.Cps):
         if r is None:
             raise Unsupported(f"statement {st[0]} inside a loop body")
         lines, env2, w = r
-        if w:
+        if not self.only_lets(w):
             raise Unsupported("guarded expression inside a loop body")
-        return "\n".join(lines + [self.body(rest, None, env2, state, st_ty)])
+        return self.wrap(w, "\n".join(lines + [self.body(rest, None, env2, state, st_ty)]))
 
     def body_if(self, e, env, state, st_ty):
-        c, tc = self.pure(e[1], env)
-        if tc != "Bool":
+        c, tc, wc = self.ex(e[1], env)
+        if tc != "Bool" or not self.only_lets(wc):
             raise Unsupported("condition")
         tt = self.body(e[2][1], e[2][2], env, state, st_ty)
         if e[3] is None:
@@ -348,7 +401,29 @@ class RankCps(Q.Cps):
             ee = self.body_if(e[3], env, state, st_ty)
         else:
             ee = self.body(e[3][1], e[3][2], env, state, st_ty)
-        return f"if {c} then\n{indent(tt)}\nelse\n{indent(ee)}"
+        return self.wrap(wc, f"if {c} then\n{indent(tt)}\nelse\n{indent(ee)}")
+
+    def with_k(self, make_branches, pat, env, rest, tail, k):
+        """instrumented variant: the log is passed to the continuation explicitly (a `let log__` wrapped
+        around the branching statement is not visible inside a `k__N` defined before it)"""
+        if not self.trace:
+            return super().with_k(make_branches, pat, env, rest, tail, k)
+        self.nk += 1
+        name = f"k__{self.nk}"
+        seen = []
+
+        def kk(v, ty, env_b):
+            seen.append(ty)
+            return f"{name} (log__, {v})"
+        btxt = make_branches(kk)
+        if not seen:
+            return btxt
+        if any(t != seen[0] for t in seen):
+            raise Unsupported(f"branches of different types {seen}")
+        ty = seen[0]
+        ptxt, env2 = self.bind_pat(pat, ty, env)
+        rtxt = self.seq(rest, tail, env2, k)
+        return f"let {name} := fun ((log__, {ptxt}) : (List (Nat × Nat)) × ({ty_lean(ty)})) =>\n{indent(rtxt)}\n{btxt}"
 
     # ---- top level: continuation-passing, with assignments
     def seq(self, stmts, tail, env, k):
@@ -458,6 +533,13 @@ def translate(sig, body_src):
             return f"some {v}"
         raise Unsupported(f"function value of type {ty}")
     txt = em.seq(blk[1], blk[2], {"pct": "Bool", "rev": "Bool"}, final)
+    # the instrumented variant: the same statements, every unchecked access logged as (index, length)
+    TRACE[0] = True
+    try:
+        tr = RankCps(trace=True)
+        ttxt = tr.seq(blk[1], blk[2], {"log__": "Log", "pct": "Bool", "rev": "Bool"}, lambda v, ty, env: "log__")
+    finally:
+        TRACE[0] = False
     L = ["namespace vrank",
          "/-- `vrank` of tea-map/src/vec_map.rs, in source order; `none` = panic, a slot `none` = never written,",
          "`some none` = null rank -/",
@@ -466,6 +548,12 @@ def translate(sig, body_src):
          f"def loops : Nat := {em.loops}",
          f"def sorts : Nat := {em.sorts}",
          f"/-- `usize` subtractions inside loop bodies, read as truncating -/\ndef unguarded : Nat := {em.unguarded}",
+         "/-- the same statements with every unchecked access (`self.uget`, `idx_sorted.uget`, `out.uset`) logged as",
+         "`(index, length of the container)` in execution order; `usize` subtraction inside loops wraps (`wsub`) -/",
+         "def trace (S : C12.Std) (xs : List (Option Rat)) (pct : Bool) (rev : Bool) : List (Nat × Nat) :=",
+         "  let log__ : List (Nat × Nat) := []",
+         indent(ttxt, 2),
+         f"def accessSites : Nat := {tr.accesses}",
          "def parsed : Bool := true",
          "end vrank"]
     return "\n".join(L)
